@@ -1,20 +1,20 @@
 #!/bin/bash
 # Run checks against a seeded change WITHOUT touching /repo or /verif (other work is going on there):
 #   tools/mutcheck.sh <patch.diff> <Cxx> [<Cyy> ...]
-# Keeps a private copy of /verif in /tmp/mc/verif (harness path-dependency rewritten to /tmp/mc/repo) and a worktree /tmp/mc/repo.
+# Keeps a private copy of /verif in ${MC:-/tmp/mc}/verif (harness path-dependency rewritten to ${MC:-/tmp/mc}/repo) and a worktree ${MC:-/tmp/mc}/repo.
 # When nothing else is running, the brief's literal procedure (git -C /repo apply; ./check; git -C /repo checkout -- .) is equivalent.
 set -e
 patch="$(readlink -f "$1")"; shift
-mkdir -p /tmp/mc
-if [ ! -d /tmp/mc/repo ]; then git -C /repo worktree add -q --detach /tmp/mc/repo HEAD; fi
-git -C /tmp/mc/repo checkout -q -- . && git -C /tmp/mc/repo checkout -q --detach "$(git -C /repo rev-parse HEAD)"
-rsync -a --delete --exclude harness/target --exclude harness/scratch --exclude translator/target --exclude '.lock-*' --exclude replay --exclude evidence /verif/ /tmp/mc/verif/ || true
-mkdir -p /tmp/mc/verif/replay /tmp/mc/verif/evidence
-sed -i 's|path = "/repo"|path = "/tmp/mc/repo"|' /tmp/mc/verif/harness/Cargo.toml
-export IQE_REPO=/tmp/mc/repo
-cd /tmp/mc/verif
-if [ "$patch" != "/dev/null" ]; then git -C /tmp/mc/repo apply "$patch"; fi
+mkdir -p ${MC:-/tmp/mc}
+if [ ! -d ${MC:-/tmp/mc}/repo ]; then git -C /repo worktree add -q --detach ${MC:-/tmp/mc}/repo HEAD; fi
+git -C ${MC:-/tmp/mc}/repo checkout -q -- . && git -C ${MC:-/tmp/mc}/repo checkout -q --detach "$(git -C /repo rev-parse HEAD)"
+rsync -a --delete --exclude harness/target --exclude harness/scratch --exclude translator/target --exclude '.lock-*' --exclude replay --exclude evidence /verif/ ${MC:-/tmp/mc}/verif/ || true
+mkdir -p ${MC:-/tmp/mc}/verif/replay ${MC:-/tmp/mc}/verif/evidence
+sed -i "s|path = \"/repo\"|path = \"${MC:-/tmp/mc}/repo\"|" ${MC:-/tmp/mc}/verif/harness/Cargo.toml
+export IQE_REPO=${MC:-/tmp/mc}/repo
+cd ${MC:-/tmp/mc}/verif
+if [ "$patch" != "/dev/null" ]; then git -C ${MC:-/tmp/mc}/repo apply "$patch"; fi
 rc=0
 for c in "$@"; do ./check "$c" --tier "${VERIF_TIER:-quick}" || rc=1; done
-git -C /tmp/mc/repo checkout -q -- .
+git -C ${MC:-/tmp/mc}/repo checkout -q -- .
 exit $rc
